@@ -107,24 +107,36 @@ Definition parse_rec (b : bctx) (L : layout) (pos : Z) : M record :=
 
 (* ------------------------------------------------------------------ layouts with
    file-sized arrays (Elf_Hash, Gnu_Hash): an Array whose count exceeds what is left
-   fails after reading everything; checking that first keeps counts small *)
-Definition arr_ok (k : fkind) (e : env) (bs : list Z) : bool :=
-  match k with
-  | KArr c _ n => eval e c * Z.of_nat n <=? blen bs
-  | _ => true
+   fails after reading everything.  [avail] = number of bytes from the cursor to EOF, kept by
+   arithmetic; checking it before an array keeps every count below the file size. *)
+Fixpoint words (le : bool) (n : nat) (cnt : nat) (bs : list Z) : list Z * list Z :=
+  match cnt with
+  | O => ([], bs)
+  | S c => let '(zs, t) := words le n c (skipn n bs) in (int_decode le (firstn n bs) :: zs, t)
   end.
-Fixpoint decode_fields_g (L : layout) (e : env) (bs : list Z)
-  : option (list (string * fval) * list Z) :=
+Definition ksize (k : fkind) : Z := match kind_size k with Some n => Z.of_nat n | None => 0 end.
+Fixpoint decode_fields_g (L : layout) (e : env) (bs : list Z) (avail : Z)
+  : option (list (string * fval) * Z) :=
   match L with
-  | [] => Some ([], bs)
+  | [] => Some ([], avail)
   | (nm, k) :: L' =>
-      if negb (arr_ok k e bs) then None else
-      match decode_kind nm k e bs with
-      | None => None
-      | Some (entries, r) =>
-          match decode_fields_g L' (rev entries ++ e) r with
-          | Some (es, t) => Some (entries ++ es, t)
+      match k with
+      | KArr c le n =>
+          let cnt := Z.max 0 (eval e c) in
+          if negb (cnt * Z.of_nat n <=? avail) then None else
+          let '(zs, r) := words le n (Z.to_nat cnt) bs in
+          match decode_fields_g L' ((nm, VL zs) :: e) r (avail - cnt * Z.of_nat n) with
+          | Some (es, a) => Some ((nm, VL zs) :: es, a)
           | None => None
+          end
+      | _ =>
+          match decode_kind nm k e bs with
+          | None => None
+          | Some (entries, r) =>
+              match decode_fields_g L' (rev entries ++ e) r (avail - ksize k) with
+              | Some (es, a) => Some (entries ++ es, a)
+              | None => None
+              end
           end
       end
   end.
@@ -133,10 +145,10 @@ Definition struct_parse_arr_at (b : bctx) (L : layout) (pos : Z) : M record := f
   | Some t =>
       if String.eqb t "OverflowError" && negb (leg_of b) then (Err EParse, c) else (Err (EPy t), c)
   | None =>
-      let win := rest_at (bs_of b) pos in
-      match decode_fields_g L [] win with
-      | Some (r, t) => (Ok r, tick_parse c (blen win - blen t))
-      | None => (Err EParse, tick_parse c (blen win))
+      let avail := Z.max 0 (stream_len (b_x b) - pos) in
+      match decode_fields_g L [] (rest_at (bs_of b) pos) avail with
+      | Some (r, a) => (Ok r, tick_parse c (avail - a))
+      | None => (Err EParse, tick_parse c avail)
       end
   end.
 
